@@ -45,6 +45,11 @@ CONSTRUCTS = {
                       "        {IN}", "        return b + c", "    return inner2(b)", "t5 = outer(a)"]),
     "closure_branch": ("", ["def innerb(b: int) -> int:", "    if b > 0:", "        return b",
                             "    {IN}", "    return a", "t8 = innerb(1)"]),
+    "closure_captures_local_fn": ("", ["def hh(b: int) -> int:", "    return b + 1", "def gg(c: int) -> int:",
+                                       "    {IN}", "    return hh(c)", "t9 = gg(a)"]),
+    "closure_captures_callable": ("@guppy\ndef cidt(v: int) -> int:\n    return v\n\n",
+                                  ["kf = cidt", "def gk(c: int) -> int:", "    {IN}", "    return kf(c)",
+                                   "t10 = gk(a)"]),
     "mod_dagger": ("", ["with dagger:", "    {IN}"]),
     "mod_control": ("", ["qc = qubit()", "with control(qc):", "    {IN}", "discard(qc)"]),
     "mod_power": ("", ["with power(2):", "    {IN}"]),
